@@ -204,7 +204,10 @@ class ClipSim:
                 seam = rng.choice(['write', 'write', 'write', 'mfopen'])
                 if seam == 'write':
                     nth = rng.choice([1, nw, rng.randint(1, max(1, nw)), 2])
-                    return [{'seam': 'write', 'nth': nth, 'kind': rng.choice(['ENOSPC', 'EIO', 'partial', 'crash', 'crash_after'])}]
+                    f = {'seam': 'write', 'nth': nth, 'kind': rng.choice(['ENOSPC', 'EIO', 'partial', 'crash', 'crash_after'])}
+                    if f['kind'] in ('ENOSPC', 'EIO') and rng.random() < 0.3:
+                        f['persistent'] = True
+                    return [f]
                 return [{'seam': 'mfopen', 'nth': 1, 'kind': rng.choice(['EIO', 'EMFILE', 'crash'])}]
             if opname in ('load',):
                 return [{'seam': 'dask', 'nth': rng.choice([1, 2, 3, 5, 8]), 'kind': rng.choice(['EIO', 'EIO', 'crash'])}]
@@ -220,8 +223,10 @@ class ClipSim:
             return []
 
         n_lt = rng.choice([1, 1, 2, 2, 3])
+        used_works = []      # (lifetime, name) of work dirs of earlier lifetimes
         for li in range(n_lt):
             ops = []
+            new_works = []
             live_masks, live_res = [], []
             n_ops = rng.randint(2, 6 if not big else 8)
             # later lifetimes start from what is on disk
@@ -266,13 +271,22 @@ class ClipSim:
                         op['geom'] = gen_geometry(rng, world)
                         op['buffer'] = rng.choice([0, 0, 1, 2])
                     ops.append(op)
+                    if li > 0 and used_works and rng.random() < 0.3:
+                        # the caller's scratch directory from an earlier process, with whatever that run left behind
+                        op['work_reuse'] = rng.choice(used_works)
                     if op['faults']:
                         r2, wk2 = fresh('res'), fresh('work')
                         retry = dict(op, res=r2, work=wk2, faults=[], retry=True)
+                        if rng.random() < 0.4:
+                            retry['work_reuse_same_lifetime'] = op['work']   # retry into the directory of the failed attempt
                         ops.append(retry)
                         live_res.append(r2)
+                        new_works.append(wk2)
                     else:
                         live_res.append(r)
+                    new_works.append(wk)
+                    if rng.random() < 0.45:
+                        ops.append({'op': 'load', 'res': live_res[-1], 'faults': []})
                 elif kind == 'load':
                     ops.append({'op': 'load', 'res': rng.choice(live_res), 'faults': fault_for('load')})
                     if ops[-1]['faults']:
@@ -302,6 +316,7 @@ class ClipSim:
                                 'variant': 0})
             end = 'crash_after_ack' if (ops and ops[-1]['op'] in ('save', 'save_mask') and rng.random() < 0.5) else 'exit'
             lts.append({'ops': ops, 'end': end})
+            used_works += [[li, w_] for w_ in new_works]
         return {'engine': self.name, 'world': world, 'env': env, 'lifetimes': lts}
 
     def shrink(self, plan):
@@ -486,6 +501,13 @@ class ClipSim:
             mask_obs = obs.get('sel') if name == 'clip' else model['masks'].get(op['mask'])
             model['res'][op['res']] = {'kind': 'clip', 'variant': op['variant'], 'mask_obs': mask_obs, 'parent': None,
                                        'pre': obs.get('pre'), 'work_dropped': False, 'space': None, 'input_space': None}
+            if obs.get('ds_after_fault') is not None:
+                out.stats['probe.result_returned_despite_fault_judged'] += 1
+                self._judge_result(out, world, model['res'][op['res']], obs['ds_after_fault'], f'{op["res"]} (returned although a fault was injected)', judged)
+            elif obs.get('ds_after_fault_error') is not None:
+                e = obs['ds_after_fault_error']
+                out.violate('C08', 'result-after-fault-unloadable', e.get('frame'),
+                            f'{name} reported success although a fault was injected, but its result cannot be loaded: {e["exc"]}: {e["msg"]}')
             if op['variant'] == 1:
                 out.stats['probe.second_dataset_clipped'] += 1
             if name == 'apply' and op['variant'] == 1:
@@ -686,9 +708,20 @@ def _clip_lifetime(ctx, plan, li, scratch, acked_files=()):
                                                   tag='input')
         return datasets[variant]
 
-    def workdir(name):
+    def workdir(name, op=None):
+        if op is not None and op.get('work_reuse'):
+            p = os.path.join(scratch, f"lt{op['work_reuse'][0]}-{op['work_reuse'][1]}")
+            if os.path.isdir(p) and p not in work_of.values():
+                ctx.emit('probe', name='work_dir_of_earlier_lifetime_reused')
+                return p
+        if op is not None and op.get('work_reuse_same_lifetime'):
+            p = os.path.join(scratch, f"lt{li}-{op['work_reuse_same_lifetime']}")
+            # only the directory of an attempt that *failed*: a live lazy result still reads (and holds open) its files
+            if os.path.isdir(p) and p not in work_of.values():
+                ctx.emit('probe', name='retry_into_work_dir_of_failed_attempt')
+                return p
         p = os.path.join(scratch, f'lt{li}-{name}')
-        os.makedirs(p, exist_ok=False)
+        os.makedirs(p, exist_ok=True)
         return p
 
     def geom_of(op):
@@ -744,7 +777,7 @@ def _clip_lifetime(ctx, plan, li, scratch, acked_files=()):
                     extra['empty_selection'] = bool(obs['sel']) and _selection_empty(obs['sel'])
                 else:
                     extra['empty_selection'] = _selection_empty(observe_mask(masks[op['mask']]))
-                wd = workdir(op['work'])
+                wd = workdir(op['work'], op)
                 ctl.begin_op(name, op.get('faults'))
                 if name == 'clip':
                     res = ds.ems.clip(geom_of(op), wd, buffer=op['buffer'])
@@ -818,6 +851,12 @@ def _clip_lifetime(ctx, plan, li, scratch, acked_files=()):
             ctx.emit('op_raised', k=k, op=name, exc=info['exc'], frame=info['frame'], injected=info['injected'], **extra)
             ctx.observe(f'msg{k}', info['msg'])
         fired, unfired, counts = ctl.end_op()
+        if acked and fired and name in ('apply', 'clip', 'reclip'):
+            # the call reported success although a fault was injected into it: what it returned is judged strictly
+            try:
+                obs['ds_after_fault'] = observe.observe_dataset(results[op['res']], polygons=True)
+            except Exception as e:
+                obs['ds_after_fault_error'] = observe.exc_info(e)
         ctx.observe(f'op{k}', obs)
         ctx.emit('op_done', k=k, op=name, acked=acked, fired=fired, unfired=[(f['seam'], f['kind']) for f in unfired],
                  crossings={s: (c if s != 'dask' else min(c, 9)) for s, c in sorted(counts.items())})
